@@ -27,6 +27,7 @@ type regOp struct {
 	Mem  bool   `json:"mem,omitempty"`
 	MemSp int   `json:"mem_sp,omitempty"` // in-memory: 0-2 a spelling of the canonical URL, 3 "rosmar://<path of Url>?mode=memory"
 	Url  int    `json:"url,omitempty"`  // index into regUrls
+	DiskSp int  `json:"disk_sp,omitempty"` // on disk: 0 rosmar://<path>, 1 file://<path>, 2 the bare path, 3 rosmar:<path>
 	Name int    `json:"name,omitempty"` // index into regNames
 	Mode string `json:"mode,omitempty"` // CreateOrOpen | CreateNew | ReOpenExisting
 	H    int    `json:"h,omitempty"`
@@ -134,7 +135,9 @@ func execReg(in regInput, scratch string) (Case, error) {
 			mode := map[string]rosmar.OpenMode{"CreateOrOpen": rosmar.CreateOrOpen, "CreateNew": rosmar.CreateNew, "ReOpenExisting": rosmar.ReOpenExisting}[op.Mode]
 			url := []string{rosmar.InMemoryURL, "file:/?mode=memory", "walrus:", "rosmar://" + filepath.Join(dir, regUrls[op.Url]) + "?mode=memory"}[op.MemSp%4]
 			if !op.Mem {
-				url = "rosmar://" + filepath.Join(dir, regUrls[op.Url])
+				// the same directory, spelled in each of the ways OpenBucket accepts
+				path := filepath.Join(dir, regUrls[op.Url])
+				url = []string{"rosmar://" + path, "file://" + path, path, "rosmar:" + path}[op.DiskSp%4]
 			}
 			wasRegistered := registered(op.Name)
 			b, e := rosmar.OpenBucket(url, realName(op.Name), mode)
@@ -340,7 +343,11 @@ func genReg(r *rand.Rand) regInput {
 			if r.Intn(5) == 0 {
 				sp = r.Intn(4)
 			}
-			in.Ops = append(in.Ops, regOp{Kind: "open", Mem: mem, MemSp: sp, Url: url, Name: name, Mode: mode})
+			dsp := 0
+			if r.Intn(3) == 0 {
+				dsp = r.Intn(4)
+			}
+			in.Ops = append(in.Ops, regOp{Kind: "open", Mem: mem, MemSp: sp, DiskSp: dsp, Url: url, Name: name, Mode: mode})
 			// the generator cannot know whether the open succeeds; it tracks an upper bound of handles
 			hs = append(hs, hstate{name: name})
 			for j := range hs[:len(hs)-1] {
